@@ -235,6 +235,9 @@ def run(ctx):
         do(ctx, 'C15.torch_expr', [n, e], nontrivial=('b15', it) if has(e, (4, 5, 6)) else None)
         e2 = [4, e, [2, cfrac(rng.choice(COEFS)), [0, [0, [[0] * (2 * n), rng.randint(0, 3)]]]]]
         do(ctx, 'C15.torch_expr', [n, e2], nontrivial=('b15i', it))
+        # ... and next to a term six orders of magnitude larger (phase-free, so exact in single precision): the small terms are still there afterwards
+        e3 = [4, e, [2, cfrac(2 ** 22), [0, [0, [gen.rstr(rng, n, nonzero=True), 0]]]]]
+        do(ctx, 'C15.torch_expr', [n, e3], nontrivial=('b15r', it))
     for it in range(int(20 * B)):
         n = rng.choice([6, 13, 14, 16, 20])
         site = lambda q, k: [(k >> 1) & 1 if j == 2 * q else (k & 1 if j == 2 * q + 1 else 0) for j in range(2 * n)]
